@@ -28,6 +28,19 @@ EXPLORED, not proved (ctx.explored['history_differential'], oracle = the impleme
   and must give the first answer; later calls are compared with fresh objects as before.  Identity: an array handed
   back never is / shares memory with one handed back earlier nor with any array reachable from a functools cache of
   qecsim (keys / results of the lru wrappers via gc referents) or from attributes of the code / decoder / error model.
+  PROCESS-GLOBAL STATE is an input of every later call: mpmath precision, numpy errstate / print options / legacy global
+  RNG, logging levels, os.environ, cwd, decimal context, warnings filters, recursion limit, gc, locale are recorded around
+  EVERY call (c06_exec.global_state); a change is a lead, followed up by the differential: the remaining calls of that
+  history and a battery of rounding-sensitive calls (below) right after the leaking call vs in a fresh process.  For the
+  differential to mean what it says, every shared history and every fresh call runs in its OWN forked process (parent:
+  qecsim imported, never called).
+  Rounding-sensitive calls: syndromes whose two most probable cosets are EXACTLY tied (class 'tied': decided by rational
+  arithmetic over the enumerated cosets; they exist on even-distance codes) for every tensor-network decoder in the modes
+  c / r / a, exact and truncated — the answer then depends on the last bits of the arithmetic.
+  USER SUBCLASSES: next to every code / decoder / error model class the histories use user subclasses of the SAME size
+  and parameters (trivial; X/Z-swapped logical labels; logicals times a stabilizer), interleaved with the base class in
+  both orders; the digests of the matrices the call's code object publishes after the call are part of the compared
+  result (a subclass object is a different code: nothing it computes may be served to the base class or vice versa).
 Excluded / pinned (random or stateful by documented design): MPS/RMPS skip-truncate masks (stp is never set: the mask
   comes from an unseeded default_rng()), PlanarYDecoder's random.choice between exactly tied cosets (random.seed pinned
   before every call in both processes), FileErrorModel (cursor) is not used.
@@ -54,7 +67,8 @@ RULE = ('memo: random call histories (<=40 calls, 15 keys, cap in {None,0,1,2,3,
         'all SimpleErrorModel subclasses x p in {0..1} x T<=3 x q in {None,0,.1,.5,1} x limits x 7 decoder answer '
         'kinds x random_seed value class (0, small, 2^32-1, 2^63, 2^64, up to 256-bit), uniforms from a twin generator; '
         'non-trivial = a run with >=1 failure or measurement noise or >=2 runs. '
-        'history differential: see coverage.explored')
+        'history differential (shared objects vs fresh process per call; process-global state monitor; exactly tied '
+        'syndromes for all TN decoders / modes; user subclasses interleaved with base classes): see coverage.explored')
 
 HERE = os.path.dirname(os.path.abspath(__file__))
 EXEC = os.path.join(os.path.dirname(HERE), 'c06_exec.py')
@@ -558,8 +572,50 @@ def fam_basic(rng):
     return [['FiveQubitCode', []], ['SteaneCode', []]], [['NaiveDecoder', {}]], None
 
 
+TN_MODES = 'cra'
+
+
+def fam_planar_even(rng):
+    """EVEN-distance planar codes (exactly tied cosets exist: syndrome class 'tied') x every tensor-network decoder in
+    every mode (c / r / a: the averaged mode adds two nearly equal numbers, the most rounding-sensitive comparison),
+    exact and truncated, next to the decoders that work with process-global numeric state (PlanarYDecoder: mpmath)"""
+    codes = [['PlanarCode', s] for s in rng.sample([[2, 2], [2, 3], [3, 2], [2, 4], [4, 2], [2, 5], [4, 4]], 3)]
+    decs = [['PlanarMPSDecoder', {'mode': m}] for m in TN_MODES] + \
+           [['PlanarRMPSDecoder', {'mode': m}] for m in TN_MODES] + \
+           [['PlanarMPSDecoder', {'chi': rng.choice([2, 4]), 'mode': rng.choice(TN_MODES)}],
+            ['PlanarRMPSDecoder', {'chi': rng.choice([2, 4]), 'mode': rng.choice(TN_MODES)}]]
+    return codes, rng.sample(decs, 3) + [['PlanarYDecoder', {}]], None
+
+
+def fam_rplanar_even(rng):
+    codes = [['RotatedPlanarCode', s] for s in rng.sample([[4, 4], [3, 4], [4, 3], [4, 5], [4, 6]], 2)]
+    decs = [['RotatedPlanarMPSDecoder', {'mode': m}] for m in TN_MODES] + \
+           [['RotatedPlanarRMPSDecoder', {'mode': m}] for m in TN_MODES] + \
+           [['RotatedPlanarMPSDecoder', {'chi': 4, 'mode': rng.choice(TN_MODES)}],
+            ['RotatedPlanarRMPSDecoder', {'chi': 4, 'mode': rng.choice(TN_MODES)}]]
+    return codes, rng.sample(decs, 3), None
+
+
 FAMS = [fam_planar, fam_planar, fam_planar_small, fam_planar_y, fam_toric, fam_rplanar, fam_rplanar, fam_rplanar_big, fam_rtoric, fam_color,
-        fam_basic]
+        fam_basic, fam_planar_even, fam_planar_even, fam_rplanar_even]
+
+# USER SUBCLASSES (c06_exec.subclass): a trivial subclass, the X/Z-swapped logical labelling, logicals times a stabilizer
+CODE_VARIANTS = ['plain', 'swap', 'swap', 'stab']
+
+
+def with_subclasses(rng, codes, decs, ems):
+    """adds user subclasses of the SAME size / parameters next to their base classes, so that base and subclass objects
+    are interleaved (both orders) in one history"""
+    codes, decs, ems = list(codes), list(decs), list(ems)
+    for c in rng.sample(codes, min(len(codes), rng.choice([1, 1, 2]))):
+        codes.append([c[0] + '~' + rng.choice(CODE_VARIANTS), c[1]])
+    if rng.random() < 0.4:
+        d = rng.choice(decs)
+        decs.append([d[0] + '~plain', d[1]])
+    if rng.random() < 0.4:
+        e = rng.choice(ems)
+        ems.append([e[0] + '~plain', e[1]])
+    return codes, decs, ems
 
 
 def smwpm_ems(rng):
@@ -578,7 +634,11 @@ def general_ems(rng):
 
 
 def is_ftp(dec):
-    return dec[0] in ('RotatedPlanarSMWPMDecoder', 'RotatedToricSMWPMDecoder')
+    return X.base_name(dec[0]) in ('RotatedPlanarSMWPMDecoder', 'RotatedToricSMWPMDecoder')
+
+
+def is_tn(dec):
+    return 'MPSDecoder' in dec[0]
 
 
 def gf2_rank(M):
@@ -621,27 +681,116 @@ def single_qubit_error(n, qubit, pauli):
     return e
 
 
+_SPAN, _TIES = {}, {}
+TIE_MAX_GENERATORS = 16
+
+
+def stabilizer_group(code):
+    """all 2^m elements of the stabilizer group as a bit matrix (None when too large or k != 1)"""
+    k = json.dumps(code)
+    if k not in _SPAN:
+        c, S, _, indep = code_info(code)
+        G = None
+        if indep and len(S) <= TIE_MAX_GENERATORS and c.n_k_d[1] == 1:
+            G = np.zeros((1, S.shape[1]), dtype=np.uint8)
+            for r in S.astype(np.uint8):
+                G = np.vstack((G, G ^ r))
+        _SPAN[k] = G
+    return _SPAN[k]
+
+
+def coset_enumerators(G, e, L):
+    """for each of the four logical cosets of e: Counter (#X, #Y, #Z) -> number of coset elements"""
+    import collections
+    n = G.shape[1] // 2
+    out = []
+    for l in L:
+        E = G ^ ((e + l) % 2).astype(np.uint8)
+        x, z = E[:, :n], E[:, n:]
+        y = x & z
+        key = (x.sum(1) - y.sum(1)).astype(np.int64) * 10000 + y.sum(1) * 100 + (z.sum(1) - y.sum(1))
+        u, c = np.unique(key, return_counts=True)
+        out.append(collections.Counter({(int(a) // 10000, int(a) // 100 % 100, int(a) % 100): int(b) for a, b in zip(u, c)}))
+    return out
+
+
+def exactly_tied(G, e, L, pd):
+    """are the two most probable logical cosets of the syndrome of e EXACTLY equally probable (rational arithmetic on
+    the float probability distribution)?"""
+    n = G.shape[1] // 2
+    en = coset_enumerators(G, e, L)
+    fl = [sum(c * pd[1] ** a * pd[2] ** b * pd[3] ** cc * pd[0] ** (n - a - b - cc) for (a, b, cc), c in cn.items())
+          for cn in en]
+    order = sorted(range(4), key=lambda i: -fl[i])
+    if fl[order[0]] <= 0 or abs(fl[order[0]] - fl[order[1]]) > 1e-9 * fl[order[0]]:
+        return False
+    pI, pX, pY, pZ = (Fraction(float(x)) for x in pd)
+    diff = dict(en[order[0]])
+    for t, c in en[order[1]].items():
+        diff[t] = diff.get(t, 0) - c
+    return sum(c * pX ** a * pY ** b * pZ ** cc * pI ** (n - a - b - cc) for (a, b, cc), c in diff.items() if c) == 0
+
+
+def tied_errors(code, em, p, want=4, tries=40):
+    """errors (as the error model generates them) whose syndrome has exactly tied best cosets; cached per (code, em, p)"""
+    k = json.dumps([code, em, p])
+    if k not in _TIES:
+        out = []
+        G = stabilizer_group([X.base_name(code[0]), code[1]])
+        if G is not None:
+            c, S, Ssw, _ = code_info([X.base_name(code[0]), code[1]])
+            e_m = make_em([X.base_name(em[0]), em[1]])
+            pd = e_m.probability_distribution(p)
+            lx, lz = np.array(c.logical_xs[0]), np.array(c.logical_zs[0])
+            L = [np.zeros_like(lx), lx, (lx + lz) % 2, lz]
+            grng = np.random.default_rng(int.from_bytes(k.encode(), 'little') % 2 ** 63)
+            seen = set()
+            for _ in range(tries):
+                e = np.array(e_m.generate(c, p, grng))
+                syn = bits((e @ Ssw.T) % 2)
+                if syn in seen:
+                    continue
+                seen.add(syn)
+                if exactly_tied(G, e, L, pd):
+                    out.append(e)
+                    if len(out) >= want:
+                        break
+        _TIES[k] = out
+    return _TIES[k]
+
+
 SYN_CLASSES = ['random', 'random', 'random', 'zero', 'single', 'single', 'double', 'super', 'super']
 
 
-def gen_syndrome(rng, code, em, op, focus):
+def gen_syndrome(rng, code, em, op, focus, p=0.1, tie_ok=False):
     """syndrome argument of a decode / decode_ftp spec, by CLASS: random error (as the runs produce), zero, single defect
     (one stabilizer bit where the stabilizers are independent, else the defects of one single-qubit error), two defects,
-    and a random syndrome containing the focus defect.  The zero and single-defect syndromes are the inputs decoders
+    a random syndrome containing the focus defect, and — on small codes, for the tensor-network decoders — a syndrome whose
+    two most probable cosets are EXACTLY tied (the decision then rests on the last bits of the arithmetic).  The zero and single-defect syndromes are the inputs decoders
     special-case (empty matching, no accumulation); `focus` (a stabilizer index and a qubit per history and code) makes
     the structured syndromes of one history hit the same per-defect cache entries again and again."""
-    c, S, Ssw, indep = code_info(code)
+    c, S, Ssw, indep = code_info([X.base_name(code[0]), code[1]])  # subclass variants share the base lattice
     n, m = S.shape[1] // 2, len(S)
-    e_m = make_em(em)
+    e_m = make_em([X.base_name(em[0]), em[1]])
     T = 1 if op == 'decode' else rng.choice([1, 2, 3])
     grng = np.random.default_rng(rng.randrange(2 ** 32))
     pe = rng.choice([0.05, 0.1, 0.2, 0.3])
     cls = rng.choice(SYN_CLASSES)
+    if op == 'decode' and tie_ok and rng.random() < 0.5:
+        cls = 'tied'
     fs, fq, fp = focus
     unit = np.zeros(m, dtype=int)  # defects placed directly (only where every syndrome is reachable)
     zero_e = np.zeros(2 * n, dtype=int)
     rand_e = lambda: np.array(e_m.generate(c, pe, grng))  # noqa: E731
-    if cls == 'random':
+    if cls == 'tied':
+        pool = tied_errors(code, em, p)
+        if pool:
+            es = [np.array(rng.choice(pool))]
+        else:
+            cls = 'random'
+    if cls == 'tied':
+        pass
+    elif cls == 'random':
         es = [rand_e() for _ in range(T)]
     elif cls == 'zero':
         es = [zero_e.copy() for _ in range(T)]
@@ -686,6 +835,8 @@ def gen_history(rng, length):
         codes, decs, dom = fam(rng)
         ems = smwpm_ems(rng) if dom == 'smwpm' else general_ems(rng)
         ps = rng.sample([0.02, 0.05, 0.1, 0.15, 0.2, 0.3, 0.45], 2)
+        if rng.random() < 0.5:
+            codes, decs, ems = with_subclasses(rng, codes, decs, ems)
         stations.append((codes, decs, ems, ps))
     focus = {}
     specs = []
@@ -706,7 +857,7 @@ def gen_history(rng, length):
             fk = json.dumps(code)
             if fk not in focus:
                 focus[fk] = (rng.randrange(10 ** 6), rng.randrange(10 ** 6), rng.choice('XYZ'))
-            spec.update(gen_syndrome(rng, code, em, op, focus[fk]))
+            spec.update(gen_syndrome(rng, code, em, op, focus[fk], p=p, tie_ok=is_tn(dec)))
         else:
             spec['seed'] = rand_seed(rng)
             if op in ('run_once_ftp', 'run_ftp'):
@@ -754,6 +905,8 @@ def strip_err(spec):
 
 
 def run_job(calls, mode, hashseed, timeout=600):
+    """`calls` as ONE history in a fresh interpreter (mode 'shared': one process, shared objects; 'fresh': every call in
+    its own forked process on fresh objects)"""
     r = collect(spawn({'mode': mode, 'calls': calls, 'limit': CALL_LIMIT}, hashseed), timeout)
     return None if r is None else [x['res'] for x in r['results']]
 
@@ -783,7 +936,11 @@ def confirm(history, i, hs_a, hs_b):
             continue
         if sh[-1] != fa[0]:
             wo = run_job([strip_err(s) for s in h], 'shared', hs_a)
-            return {'what': 'result of the last call depends on the calls made before it on the shared objects'
+            only_code = sh[-1].split(' code=')[0] == fa[0].split(' code=')[0]
+            return {'what': ('after the calls made before it in the same process, the code object of the last call publishes '
+                             'stabilizers / logical_xs / logical_zs / logicals (digests after `code=`) that differ from '
+                             'those the same code has in a fresh process' if only_code else
+                             'result of the last call depends on the calls made before it on the shared objects')
                             + ('' if wo is None or wo[-1] != fa[0] else ' (through the true error passed as context)'),
                     'history': h, 'index': len(h) - 1, 'hashseeds': [hs_a, hs_b],
                     'results': {'after_history': sh[-1], 'fresh': fa[0]}, 'mode': 'history'}
@@ -793,6 +950,99 @@ def confirm(history, i, hs_a, hs_b):
                 'hashseeds': [hs_a, hs_b], 'results': {'with_error_context': alone[0], 'without': fa[0]},
                 'mode': 'history'}
     return None
+
+
+def probe_battery(rng, size):
+    """calls whose answer depends on the last bits of the arithmetic (exactly tied syndromes on even-distance codes, every
+    tensor-network decoder, modes c / r / a, exact and truncated) plus a seeded run per decoder family: the later calls
+    that a leaked process-global numeric setting would change"""
+    out = []
+    pl = [['PlanarCode', s] for s in ([2, 2], [2, 3], [3, 2], [2, 4], [4, 2], [2, 5])]
+    rp = [['RotatedPlanarCode', s] for s in ([4, 4], [3, 4], [4, 3])]
+    ems = [['DepolarizingErrorModel', []], ['BiasedDepolarizingErrorModel', [10, 'Y']], ['BitFlipErrorModel', []],
+           ['BiasedDepolarizingErrorModel', [3, 'X']], ['PhaseFlipErrorModel', []]]
+    tries = 0
+    while len(out) < size and tries < 20 * size:
+        tries += 1
+        planar = rng.random() < 0.65
+        code = rng.choice(pl if planar else rp)
+        name = rng.choice(['PlanarMPSDecoder', 'PlanarRMPSDecoder'] if planar else
+                          ['RotatedPlanarMPSDecoder', 'RotatedPlanarRMPSDecoder'])
+        dec = [name, {'mode': rng.choice('craa')}]
+        if rng.random() < 0.3:
+            dec[1]['chi'] = rng.choice([2, 4])
+        em, p = rng.choice(ems), rng.choice([0.05, 0.1, 0.2, 0.3])
+        pool = tied_errors(code, em, p)
+        if not pool:
+            continue
+        e = np.array(rng.choice(pool))
+        _, S, Ssw, _ = code_info(code)
+        out.append({'op': 'decode', 'code': code, 'dec': dec, 'em': em, 'p': p, 'syn': bits((e @ Ssw.T) % 2),
+                    'syn_class': 'tied'})
+    for code, dec in ([['PlanarCode', [4, 2]], ['PlanarMPSDecoder', {'mode': 'a'}]],
+                      [['PlanarCode', [2, 4]], ['PlanarRMPSDecoder', {'mode': 'a'}]],
+                      [['PlanarCode', [3, 3]], ['PlanarYDecoder', {}]], [['PlanarCode', [4, 4]], ['PlanarMWPMDecoder', {}]],
+                      [['RotatedPlanarCode', [4, 4]], ['RotatedPlanarMPSDecoder', {'mode': 'a'}]],
+                      [['Color666Code', [3]], ['Color666MPSDecoder', {}]], [['ToricCode', [2, 2]], ['ToricMWPMDecoder', {}]],
+                      [['SteaneCode', []], ['NaiveDecoder', {}]]):
+        out.append({'op': 'run', 'code': code, 'dec': dec, 'em': ['DepolarizingErrorModel', []], 'p': 0.1,
+                    'seed': rng.randrange(2 ** 16), 'max_runs': 40, 'max_failures': None})
+    return out
+
+
+def lead_kind(note):
+    return note.split('process-global state ')[1].split(':')[0] if 'process-global state ' in note else note[:40]
+
+
+def global_followup(ctx, histories, leads, hs_a, hs_b):
+    """a call changed process-global state (lead).  Confirmed by the differential: the same LATER call (the remaining
+    calls of that history and the probe battery) right after the leaking call vs in a fresh process."""
+    kinds = {}
+    for h, i, nt in leads:
+        sp = histories[h][i]
+        kinds.setdefault((lead_kind(nt).split('.')[0], X.base_name(sp['em'][0] if sp['op'] == 'generate' else sp['dec'][0])),
+                         []).append((h, i, nt))
+    summary = {'leads': len(leads), 'kinds': sorted('{} by {}'.format(*k) for k in kinds), 'confirmed': [],
+               'probes_per_kind': 0}
+    battery = None
+    for (state, who), cands in sorted(kinds.items())[:3]:
+        if battery is None:
+            battery = probe_battery(ctx.rng, ctx.scale(120, 400))
+            summary['probes_per_kind'] = len(battery)
+        # the cheapest leaking calls first (smallest code, plain decode before runs)
+        cands = sorted(cands, key=lambda x: (histories[x[0]][x[1]]['op'] not in ('decode', 'generate'),
+                                             sum(histories[x[0]][x[1]]['code'][1] or [0])))[:3]
+        after = fresh = None
+        for h, i, nt in cands:
+            leak = histories[h][i]
+            probes = [strip_err(s) for s in histories[h][i + 1:i + 7]] + battery
+            after = run_job([leak] + probes, 'shared', hs_a, timeout=1800)
+            if after is not None and after[0] != 'TIMEOUT':
+                break
+            after = None
+        if after is None:
+            continue
+        fresh = run_job(probes, 'fresh', hs_b, timeout=1800)
+        if fresh is None:
+            continue
+        hit = None
+        for k, pr in enumerate(probes):
+            a, b = after[k + 1], fresh[k]
+            if 'TIMEOUT' in (a, b) or a == b:
+                continue
+            pair = run_job([leak, pr], 'shared', hs_a)
+            alone = run_job([pr], 'fresh', hs_a)
+            if pair is None or alone is None or 'TIMEOUT' in (pair[-1], alone[0]) or pair[-1] == alone[0]:
+                continue
+            hit = {'what': 'result of the last call depends on a call made before it in the same process, on other objects: '
+                           'the earlier call changes process-global state ({})'.format(nt.split('state ')[-1]),
+                   'history': [leak, pr], 'index': 1, 'hashseeds': [hs_a, hs_b], 'part': 'history', 'mode': 'history',
+                   'results': {'after_history': pair[-1], 'fresh': alone[0]}, 'global_state_changed': nt}
+            break
+        if hit:
+            summary['confirmed'].append('{} by {}'.format(state, who))
+            ctx.monitor_fail(hit['what'], hit, key='global-state:{}:{}'.format(state, who))
+    return summary
 
 
 def part_history(ctx):
@@ -869,7 +1119,9 @@ def part_history(ctx):
     # it is followed up by the differential itself (later calls of the history, repeats) and counted below
     prio = {'REPEAT': 0, 'ALIAS': 1, 'ARG': 2, 'CODE': 3}
     leads = [x for x in mutated if x[2].startswith('CACHE-WRITE')]
-    hard = sorted((x for x in mutated if not x[2].startswith('CACHE-WRITE')),
+    gleads = [x for x in mutated if x[2].startswith('GLOBAL')]
+    gsummary = global_followup(ctx, histories, gleads, hs[0], hs[-1]) if gleads else {'leads': 0}
+    hard = sorted((x for x in mutated if not x[2].startswith(('CACHE-WRITE', 'GLOBAL'))),
                   key=lambda x: (prio.get(x[2].split(':')[0], 9), len(histories[x[0]][:x[1] + 1])))
     seen_keys = set()
     for h, i, nt in hard:
@@ -885,6 +1137,7 @@ def part_history(ctx):
         'evaluations': compared, 'histories': n_hist, 'differing_calls': differing,
         'differences_not_reproduced_in_clean_interpreters': unconfirmed,
         'mutation_checks': len(flat), 'exhaustive': False,
+        'global_state': gsummary,
         'cache_write_leads': len(leads), 'cache_write_lead_sample': [
             {'call': strip_err(histories[h][i]), 'note': nt} for h, i, nt in leads[:2]],
         'rule': 'each call of a random interleaving on shared objects (caches cleared only at the start of a history) '
@@ -893,7 +1146,12 @@ def part_history(ctx):
                 'wall_time (floats as hex) / exception type; argument arrays and code matrices hashed around every '
                 'call; after every call the caller flips bits of the result arrays in place (decode/generate repeated '
                 'at once); result arrays checked for identity / shared memory with earlier results and cached '
-                'arrays'.format(hs),
+                'arrays; the digests of the matrices the call\'s code object publishes after the call are part of the '
+                'compared result; process-global state (mpmath precision, numpy errstate / print options / global RNG, '
+                'logging, environ, cwd, decimal context, warnings filters, …) recorded around every call, a change is '
+                'followed up by the differential on the later calls and a battery of tie-sensitive decodes; every '
+                'history (shared) / every call (fresh) runs in its own forked process; user subclasses of codes / '
+                'decoders / error models are interleaved with their base classes'.format(hs),
         'wall_s': round(time.time() - t0, 1)}
     ctx.evaluations += compared
 
@@ -960,7 +1218,7 @@ def replay(ctx, path):
                 still = a is not None and b is not None and a[i] != b[i]
             elif inp.get('mode') == 'mutation':
                 r = collect(spawn({'mode': 'shared', 'calls': hist, 'limit': CALL_LIMIT}, hs_a), 600)
-                still = r is not None and any(x['notes'] for x in r['results'])
+                still = r is not None and any(not nt.startswith(('GLOBAL', 'CACHE-WRITE')) for x in r['results'] for nt in x['notes'])
             else:
                 a = run_job(hist, 'shared', hs_a)
                 b = run_job([strip_err(hist[i])], 'fresh', hs_a)
